@@ -41,7 +41,7 @@ type RemotePkg struct {
 	// MetaMode "" = metadata iff Commit is set; "message-only" / "empty" make
 	// the fetcher return metadata without a commit id (used by C09 only).
 	MetaMode string `json:"meta_mode,omitempty"`
-	Message string            `json:"message,omitempty"`
+	Message  string `json:"message,omitempty"`
 	// Deps[location+"|"+finder] lists the dependencies declared at a module location
 	Deps map[string][]Dep `json:"deps,omitempty"`
 	// Extras are additional nodes (links, empty directories, odd modes) the
@@ -138,12 +138,12 @@ func localDeps(loc string) []string {
 // RandomWorld generates a fault-free world: every declared dependency can be
 // satisfied (except where noted by the caller's options).
 type WorldOpts struct {
-	MaxPkgs     int
-	MaxReg      int
-	MaxFinders  int
-	MaxAdds     int
-	Aliases     bool // some packages share content
-	OddAddrs    bool // addresses exercising escapes / ports / queries
+	MaxPkgs      int
+	MaxReg       int
+	MaxFinders   int
+	MaxAdds      int
+	Aliases      bool // some packages share content
+	OddAddrs     bool // addresses exercising escapes / ports / queries
 	EmptyAllowed bool // allow registry deps whose allowed set may be unsatisfiable (C17)
 }
 
@@ -252,6 +252,10 @@ func RandomWorld(r *fw.Rand, o WorldOpts) World {
 			a = w.Adds[r.Intn(k)] // repeat
 		}
 		w.Adds = append(w.Adds, a)
+	}
+	if len(w.Adds) >= 2 && r.Chance(1, 3) {
+		// a repeated call followed by one more, different call
+		w.Adds = append(w.Adds, w.Adds[0], Add{Kind: "remote", Remote: SrcRef{Pkg: r.Intn(np), Sub: worldLocs[r.Intn(len(worldLocs))]}, Finder: r.Intn(w.Finders)})
 	}
 	return w
 }
